@@ -6,6 +6,7 @@ import (
 	"sort"
 	"strconv"
 	"strings"
+	"sync"
 	"time"
 
 	"google.golang.org/protobuf/proto"
@@ -15,6 +16,7 @@ import (
 	scTime "github.com/smart-core-os/sc-api/go/types/time"
 	"github.com/smart-core-os/sc-golang/pkg/resource"
 	"github.com/smart-core-os/sc-golang/pkg/trait/bookingpb"
+	"github.com/smart-core-os/sc-golang/pkg/trait/electricpb"
 	"github.com/smart-core-os/sc-golang/pkg/trait/hailpb"
 	"github.com/smart-core-os/sc-golang/verifharness/lib"
 )
@@ -302,6 +304,187 @@ func inclCases() []inclCase {
 	return out
 }
 
+// ---- electricpb createOrAddMode: what a subscriber is handed while the write is in flight ---------------------------
+
+type createCase struct {
+	Kind   string   `json:"kind"` // "create"
+	Keys   []string `json:"keys"` // the modes the model starts with
+	Taken  bool     `json:"normal_taken"`
+	SrcID  string   `json:"src_id"` // "" = CreateMode (the collection generates the id), else AddMode
+	Normal bool     `json:"normal"`
+}
+
+func b01(b bool) string {
+	if b {
+		return "1"
+	}
+	return "0"
+}
+
+func dash(s string) string {
+	if s == "" {
+		return "-"
+	}
+	return s
+}
+
+func (c createCase) line() string {
+	keys := "-"
+	if len(c.Keys) > 0 {
+		keys = strings.Join(c.Keys, ",")
+	}
+	return fmt.Sprintf("rim create %s %s %s %s", keys, dash(c.SrcID), b01(c.Normal), b01(c.Taken))
+}
+
+// runCreateCase: two backpressure subscribers on the modes, the first one keeps up and notes the id of every new
+// value AT RECEIPT, the second one takes nothing (with initial modes it is parked on its seed, so the writer is
+// parked inside bus.Send after the first subscriber was served) until the call has been seen not to return.
+// inFlight: what the first subscriber saw of the announced record differs from the record after the call.
+func runCreateCase(c createCase) (ans string, inFlight string) {
+	panicked, msg := lib.Catch(func() {
+		var init []*traits.ElectricMode
+		for i, k := range c.Keys {
+			init = append(init, &traits.ElectricMode{Id: k, Title: "t" + k, Normal: c.Taken && i == 0})
+		}
+		m := electricpb.NewModel(electricpb.WithInitialMode(init...))
+		ctx, cancel := context.WithCancel(context.Background())
+		defer cancel()
+		type seen struct {
+			ptr  *traits.ElectricMode
+			copy *traits.ElectricMode
+		}
+		var mu sync.Mutex
+		var got []seen
+		sub1 := m.PullModes(ctx, resource.WithBackpressure(true), resource.WithUpdatesOnly(true))
+		go func() {
+			for ch := range sub1 {
+				if ch.NewValue != nil {
+					mu.Lock()
+					got = append(got, seen{ch.NewValue, proto.Clone(ch.NewValue).(*traits.ElectricMode)})
+					mu.Unlock()
+				}
+			}
+		}()
+		sub2 := m.PullModes(ctx, resource.WithBackpressure(true))
+		quiesce(50)
+		src := &traits.ElectricMode{Id: c.SrcID, Title: "new", Normal: c.Normal}
+		var created *traits.ElectricMode
+		var err error
+		done := make(chan struct{})
+		go func() {
+			defer close(done)
+			if c.SrcID == "" {
+				created, err = m.CreateMode(src)
+			} else if err = m.AddMode(src); err == nil {
+				created, _ = m.FindMode(c.SrcID)
+			}
+		}()
+		returned := func() bool {
+			select {
+			case <-done:
+				return true
+			default:
+				return false
+			}
+		}
+		for i := 0; i < 300 && !returned(); i++ {
+			quiesce(1)
+		}
+		// the second subscriber starts taking
+		go func() {
+			for range sub2 {
+			}
+		}()
+		select {
+		case <-done:
+		case <-time.After(3 * time.Second):
+			ans = "hung"
+			return
+		}
+		quiesce(50)
+		rename := func(id string) string {
+			switch id {
+			case "", "a", "b", "c":
+				return dash(id)
+			}
+			return "G"
+		}
+		out := "out=none|send=-|final=-"
+		if err == nil && created != nil {
+			send := "?"
+			mu.Lock()
+			for _, g := range got {
+				if g.ptr == created {
+					send = rename(g.copy.Id)
+					if !proto.Equal(g.ptr, g.copy) {
+						inFlight = fmt.Sprintf("received %s, now %s", txt(g.copy), txt(g.ptr))
+					}
+				}
+			}
+			mu.Unlock()
+			out = "out=ok|send=" + send + "|final=" + rename(created.Id)
+		}
+		var keys []string
+		for _, md := range m.Modes() {
+			keys = append(keys, rename(md.Id))
+		}
+		sort.Strings(keys)
+		ans = out + "|src=" + rename(src.Id) + "|keys=" + strings.Join(keys, ".")
+	})
+	if panicked {
+		return "panic:" + msg, inFlight
+	}
+	return ans, inFlight
+}
+
+func createCases() []createCase {
+	var out []createCase
+	for _, st := range []struct {
+		keys  []string
+		taken bool
+	}{{nil, false}, {[]string{"a"}, false}, {[]string{"a"}, true}, {[]string{"a", "b"}, false}, {[]string{"a", "b"}, true}} {
+		for _, id := range []string{"", "a", "c"} {
+			for _, n := range []bool{false, true} {
+				out = append(out, createCase{Kind: "create", Keys: st.keys, Taken: st.taken, SrcID: id, Normal: n})
+			}
+		}
+	}
+	return out
+}
+
+func createViolation(c createCase, inFlight string, mon *lib.Monitor) {
+	if inFlight != "" {
+		mon.Violate("C07/electricpb/CreateMode/announced-record-changes", "the new value of the ADD event a subscriber received while the write was in flight changed before the call returned: "+inFlight,
+			c, "the message as received", inFlight)
+	}
+}
+
+func runRim6Create(f lib.Flags, res *lib.Result, drv *lib.Driver) {
+	tie := res.Tie("rim-create-mode", "K2",
+		"electricpb Model.CreateMode / AddMode (createOrAddMode) vs the Lean `createMode`: initial modes {none, a, a+b} x a is the normal mode or not x caller's id {empty: generated, a: taken, c: free} x "+
+			"normal flag; the whole domain; two backpressure subscribers, the second stalled (parked on its seed when there are initial modes), so the first one receives the ADD event while the writer is inside bus.Send; "+
+			"compared: outcome, the record's id AT RECEIPT of the event and when the call returns (generated ids renamed G), the caller's id afterwards, the keys; non-trivial = the call succeeds")
+	tie.Exhaustive = true
+	mon := res.Monitor("rim-create-mode-frame", "on the same cases: what the first subscriber received with the ADD event is unchanged when the call returns")
+	cs := createCases()
+	lines := make([]string, len(cs))
+	for i, c := range cs {
+		lines[i] = c.line()
+	}
+	model, err := drv.Batch(lines)
+	if err != nil {
+		tie.Fail(err)
+		return
+	}
+	for i, c := range cs {
+		ans, inFlight := runCreateCase(c)
+		nt := strings.HasPrefix(ans, "out=ok")
+		mon.Eval(lines[i], nt, nil)
+		createViolation(c, inFlight, mon)
+		tie.Record(lines[i], nt, c, model[i], ans)
+	}
+}
+
 func runRim6(f lib.Flags, res *lib.Result) {
 	tieH := res.Tie("rim-hail", "K2",
 		"hailpb Model vs the Lean `hstep` (collector included): 0-2 initial records (key a / b, own id a|b — so a key need not be the record's id —, arrive_time none / long ago / recent, two bodies) x "+
@@ -322,6 +505,7 @@ func runRim6(f lib.Flags, res *lib.Result) {
 		return
 	}
 	defer drv.Close()
+	runRim6Create(f, res, drv)
 
 	hc := hailCases()
 	lines := make([]string, len(hc))
